@@ -109,9 +109,10 @@ Definition doubly_signed (k : kind) (c : contract) : Prop :=
    else co_rrsig c = None ∧ co_hrsig c = None).
 
 (** the formation / renewal transaction: the contract, the renter's inputs followed by
-    the host's inputs; a transaction set is that transaction after its parents *)
+    the host's inputs; a transaction set is that transaction after its parents, together
+    with the basis (an abstract id of a chain state) its Merkle proofs are made for *)
 Record atxn := mk_atxn { at_contract : contract; at_rin : list N; at_hin : list N }.
-Record tset := mk_tset { ts_parents : nat; ts_txn : atxn }.
+Record tset := mk_tset { ts_basis : N; ts_parents : nat; ts_txn : atxn }.
 Global Instance atxn_eq_dec : EqDecision atxn.
 Proof. solve_decision. Defined.
 
@@ -119,9 +120,9 @@ Proof. solve_decision. Defined.
 Record req := mk_req { rq_terms : cterms; rq_inputs : list (N * Z); rq_parents : nat }.
 Record hinputs := mk_hinputs { hi_inputs : list (N * Z) }.
 Record rsigs := mk_rsigs { rs_csig : sig; rs_rsig : sig; rs_npol : nat }.
-(** final response: the number of transactions in the set, whether its last
+(** final response: the basis, the number of transactions in the set, whether its last
     transaction has exactly one contract (one renewal resolution), that transaction *)
-Record final := mk_final { f_len : nat; f_shape : bool; f_txn : atxn }.
+Record final := mk_final { f_basis : N; f_len : nat; f_shape : bool; f_txn : atxn }.
 
 Definition pids (l : list (N * Z)) : list N := map fst l.
 Definition psum (l : list (N * Z)) : Z := fold_right (λ p a, snd p + a) 0 l.
@@ -142,6 +143,9 @@ Inductive basis_rel :=
 | BFork (rebasable : bool)   (* renter on a stale fork the host has stored; rebasable iff the
                                 host applied it once and the inputs predate the fork *)
 | BUnknown                   (* a basis the host has never seen *)
+| BHostBehind (rebasable : bool) (* the renter is on the tip of the host's chain manager, the
+                                host's wallet (whose tip is the funding basis) has not processed
+                                the newest blocks: the renter's inputs are rebased backwards *)
 | BClaimed (v : option bool). (* the renter names a basis its proofs were not made for: whether a
                                 rebase runs ([None]: the host's own basis was named) and what it
                                 says is the chain manager's business *)
@@ -150,6 +154,7 @@ Inductive basis_rel :=
 Definition rebase_verdict (b : basis_rel) : option bool :=
   match b with
   | BSame => None | BBehind r => Some r | BFork r => Some r | BUnknown => Some false
+  | BHostBehind r => Some r
   | BClaimed v => v
   end.
 
@@ -162,7 +167,9 @@ Record env := mk_env {
   e_send_ok : bool;       (* writing the host inputs succeeded *)
   e_parents_ok : bool;    (* pool verdict on the renter's parents *)
   e_txset_ok : bool;      (* V2TransactionSet *)
-  e_pool_ok : bool }.     (* pool verdict on the full set *)
+  e_pool_ok : bool;       (* pool verdict on the full set *)
+  e_fund_basis : N;       (* the host wallet's tip: the basis FundV2Transaction returns *)
+  e_tip : N }.            (* the chain manager's tip: the basis V2TransactionSet returns *)
 
 (** calls the handler makes on the wallet, chain manager and contractor, in order *)
 Inductive hcall :=
@@ -322,7 +329,8 @@ Definition exec (k : kind) (e : env) (m1 : option req) (m2 : option rsigs)
       | Some c =>
           let x1 := add_call x (CTxSet (e_txset_ok e)) in
           if e_txset_ok e
-          then inl (set_set x1 (mk_tset (x_parents x) (mk_atxn c (pids (x_rin x)) (x_txn_hin x))))
+          (* basis, set, err := V2TransactionSet(basis, txn): proofs and basis are the tip's *)
+          then inl (set_set x1 (mk_tset (e_tip e) (x_parents x) (mk_atxn c (pids (x_rin x)) (x_txn_hin x))))
           else inr x1
       end
   | SPool =>
@@ -345,7 +353,7 @@ Definition exec (k : kind) (e : env) (m1 : option req) (m2 : option rsigs)
   | SFinal =>
       match x_set x with
       | None => inr x
-      | Some s => inl (add_sent x (HFinal (mk_final (S (ts_parents s)) true (ts_txn s))))
+      | Some s => inl (add_sent x (HFinal (mk_final (ts_basis s) (S (ts_parents s)) true (ts_txn s))))
       end
   end.
 
